@@ -110,6 +110,7 @@ class Ctx:
         self.exhaustive_parts: dict = {}
         self.budget_hit = False
         self.t0 = time.time()
+        self.c0 = time.process_time()
 
     # --- counting -------------------------------------------------------------
     def ev(self, n: int = 1):
@@ -140,7 +141,8 @@ class Ctx:
             self.notes.append(s)
 
     def elapsed(self) -> float:
-        return time.time() - self.t0
+        """CPU seconds this unit has used (not wall-clock: what a unit explores within its budget must not depend on how busy the machine is)."""
+        return time.process_time() - self.c0
 
     # --- failures -------------------------------------------------------------
     def fail(self, clause: str, cell: dict, case, observed=None, expected=None, what: str = "", checker: str = ""):
